@@ -24,8 +24,9 @@ LAYOUTS = [
     [0.0, 0.0, 0.0],
     [INF, INF, INF],
     [2.5, 7.25, 31.0],
-    # matching scales not ordered like the masses (e.g. a small bottom ratio): the default flow is undefined there,
-    # so only explicit nf are enumerated for these layouts
+    # matching scales not ordered like the masses (e.g. a small bottom ratio): the default flow is documented for the natural
+    # sorting only; with an unspecified nf the code has to refuse (ValueError) or return the path of the reference (default nf =
+    # 3 + number of matching scales reached) - never a path built on some other number
     [20.0, 10.0, 30.0],
     [30.0, 20.0, 10.0],
     [10.0, 30.0, 20.0],
@@ -40,27 +41,72 @@ def _inf(x):
     return {"inf": INF}.get(x, x) if isinstance(x, str) else x
 
 
+def _eval_ffns(case):
+    """Atlas.ffns(nf, mu2): the constructor of fixed-flavour-number atlases (same file): nf flavours at every scale."""
+    from eko import matchings
+
+    nf, mu0 = case["ffns"], case["origin"][0]
+    res = Result()
+    sig0 = f"Atlas.ffns/nf={nf}"
+    try:
+        atlas = matchings.Atlas.ffns(nf, mu0)
+    except Exception as e:  # noqa
+        return res.fail(sig0 + "/raises", f"{type(e).__name__}: {e} mu2={mu0}")
+    want = [0.0] * (nf - 2) + [INF] * (7 - nf)
+    if [float(w) for w in atlas.walls] != want:
+        res.fail(sig0 + "/walls", f"walls {atlas.walls}, a fixed-flavour-number atlas with nf={nf} has {want}")
+    if tuple(atlas.origin) != (mu0, nf):
+        res.fail(sig0 + "/origin", f"origin {atlas.origin}, expected {(mu0, nf)}")
+    nsteps = 0
+    for muf in SCALES:
+        for nff in (nf, None):
+            try:
+                mp = atlas.matched_path((muf, nff))
+                path = atlas.path((muf, nff))
+            except Exception as e:  # noqa
+                res.fail(sig0 + f"/nff={nff}/raises", f"{type(e).__name__}: {e} mu2={mu0} target={(muf, nff)}")
+                continue
+            nsteps += len(mp)
+            got = [("seg", b.origin, b.target, b.nf) if isinstance(b, matchings.Segment) else ("match", b.scale, b.hq, b.inverse) for b in mp]
+            if got != [("seg", mu0, muf, nf)] or list(path) != list(mp):
+                res.fail(sig0 + f"/nff={nff}/single-segment", f"origin={(mu0, nf)} target={(muf, nff)}: got {mp}, a fixed-flavour-number path is the single segment {mu0} -> {muf} with nf={nf}")
+    res.info = {"steps": nsteps, "shapes": 1}
+    res.outcome = f"ffns/nf={nf}"
+    return res
+
+
 def evaluate(case):
     from eko import matchings
 
+    if "ffns" in case:
+        return _eval_ffns(case)
     walls = [_inf(w) for w in case["layout"]]
     mu0, nf0 = case["origin"]
     res = Result()
     nsteps = 0
     shapes = set()
     mono = all(a <= b for a, b in zip(walls, walls[1:]))
+    refused = 0
     for muf in SCALES + ([2.5, 31.0] if case["layout"][0] == 2.5 else []):
         for nff in NFF:
-            if not mono and (nff is None or nf0 is None):
-                continue
             sig0 = f"Atlas.matched_path/nf0={nf0},nff={nff}"
+            undefined_default = not mono and (nff is None or nf0 is None)
+            if undefined_default:
+                sig0 = f"Atlas.path/non-monotone/default-nf/nf0={nf0},nff={nff}"
             try:
                 atlas = matchings.Atlas(list(walls), (mu0, nf0))
                 path = atlas.path((muf, nff))
                 mp = atlas.matched_path((muf, nff))
+            except ValueError as e:
+                if undefined_default:
+                    refused += 1  # documented: the default flow exists for mu_c <= mu_b <= mu_t only
+                    continue
+                res.fail(sig0 + "/raises", f"{type(e).__name__}: {e} layout={walls} origin={(mu0,nf0)} target={(muf,nff)}")
+                continue
             except Exception as e:  # noqa
                 res.fail(sig0 + "/raises", f"{type(e).__name__}: {e} layout={walls} origin={(mu0,nf0)} target={(muf,nff)}")
                 continue
+            # (a path returned for an undefined default flow is held to the same invariants, with the reference's default nf)
             ref = refp.ref_matched_path(walls, (mu0, nf0), (muf, nff))
             enf0 = nf0 if nf0 is not None else refp.nf_default(mu0, walls)
             enff = nff if nff is not None else refp.nf_default(muf, walls)
@@ -108,8 +154,9 @@ def evaluate(case):
             if got != ref:
                 res.fail(sig0 + "/reference", where + f" ref={ref}")
             shapes.add((enf0, enff, len(mp)))
-    res.info = {"steps": nsteps, "shapes": len(shapes)}
-    res.outcome = f"shapes={sorted(shapes)}"[:200]
+    res.info = {"steps": nsteps, "shapes": len(shapes), "refused_default_nf": refused}
+    res.outcome = (f"refused-default-nf={refused}/" if refused else "") + f"shapes={sorted(shapes)}"
+    res.outcome = res.outcome[:200]
     return res
 
 
@@ -119,17 +166,21 @@ def run(ctx):
         extra = [2.5, 31.0] if lay[0] == 2.5 else []
         for mu0 in SCALES + extra:
             for nf0 in NF0:
-                if nf0 is None and any(a > b for a, b in zip(lay, lay[1:])):
-                    continue
                 cases.append({"layout": lay, "origin": [mu0, nf0]})
+    for nf in (3, 4, 5, 6):
+        for mu0 in SCALES:
+            cases.append({"ffns": nf, "origin": [mu0, nf]})
     results = ctx.run_cases(cases, evaluate)
-    ntargets = sum((len(SCALES) + (2 if c["layout"][0] == 2.5 else 0)) * len(NFF) for c in cases)
+    ntargets = sum((len(SCALES) + (2 if c["layout"][0] == 2.5 else 0)) * len(NFF) for c in cases if "layout" in c)
+    ntargets += sum(len(SCALES) * 2 for c in cases if "ffns" in c)
     ctx.rule = (
         "complete product of 14 matching-scale layouts (distinct, coincident, zero, infinite, not ordered like the masses) x "
         "origin scale on a 7-value lattice below/on/between/above the walls x nf0 in {3..6,None} x "
         "target scale on the same lattice x nff in {None,3..6}; every invariant of the statement and "
         "equality with an independent path builder checked on each; a case is an (layout, origin) "
-        "pair carrying all its targets; non-trivial = all"
+        "pair carrying all its targets; non-trivial = all. Layouts not ordered like the masses with an unspecified nf0/nff "
+        "(4 layouts: every origin/target with None): ValueError or the reference path. Atlas.ffns(nf, mu2), nf 3-6 x 7 origins x "
+        "7 targets x nff in {nf, None}: walls, origin, single segment"
     )
     ctx.extra.update(
         states=ntargets,
@@ -139,4 +190,6 @@ def run(ctx):
     ctx.assumptions += [
         "default nf = 3 + number of matching scales <= scale (a point on a wall belongs to the upper patch)",
         "scales restricted to the lattice; walls symbolic only through their relative order to the lattice",
+        "matching scales not ordered like the masses with an unspecified nf: the documented default flow does not exist; accepted are a "
+        "ValueError or the path for default nf = 3 + number of matching scales <= scale",
     ]
